@@ -69,10 +69,14 @@ def check_no_panic(ctx, rep, tier):
         return 1
     for f in handwritten:
         for body in iter_bodies(f):
-            big = [(i, ty_bytes(l['ty'])) for i, l in enumerate(body['locals']) if ty_bytes(l['ty']) > 64 * 1024]
-            for i, nbytes in big:
-                rep.finding('C08 stack %s' % f['path'], 'local _%d of %s occupies about %d KiB of stack: an operation that needs it cannot be '
-                                                        'relied on to return normally on an embedded or interrupt stack' % (i, f['path'], nbytes // 1024))
+            sizes = [(i, ty_bytes(l['ty'])) for i, l in enumerate(body['locals'])]
+            total = sum(n for _i, n in sizes)
+            # today's largest frame in the crate is a few hundred bytes; typical interrupt / embedded stacks are 1-8 KiB
+            if total > 8 * 1024:
+                i, nbytes = max(sizes, key=lambda x: x[1])
+                rep.finding('C08 stack %s' % f['path'], 'the locals of %s occupy at least %d KiB of stack (largest: _%d, %d bytes): an operation that '
+                                                        'needs them cannot be relied on to return normally on an embedded or interrupt stack' % (
+                                                            f['path'], total // 1024, i, nbytes))
     rep.ob('no oversized stack locals', 1)
 
     # ---- 1. frame decoder --------------------------------------------------
@@ -94,6 +98,12 @@ def check_no_panic(ctx, rep, tier):
         if kinds & {'assign-field', 'assign-whole'} and not prog.fns[p].get('derived'):
             mutators |= public_roots(ctx, p, callers=cmap)
     mutators = sorted(p for p in mutators if not prog.fns[p].get('derived'))
+    outside = [p for p in mutators if ((prog.fns[p].get('impl_self') or {}).get('path') != PS2)]
+    for p in outside:
+        # the reachable-state argument needs every writer to be an operation OF the frame decoder
+        rep.finding('C08 Ps2Decoder written-outside-its-impl %s' % p,
+                    '%s (at %s) assigns the frame decoder\'s fields directly: its states are no longer those its own operations can reach' % (p, prog.fns[p]['sp']))
+    mutators = [p for p in mutators if p not in outside]
     rep.analysed['Ps2Decoder_field_writers'] = mutators
     pub_fields = [fl['name'] for fl in prog.adt(PS2)['variants'][0]['fields'] if fl['vis'] == 'pub']
     if pub_fields:
